@@ -143,6 +143,63 @@ theorem is_almost_int_iff_snaps (x tol : Rat) :
       · have : (k : Rat) = j + 1 := by exact_mod_cast c
         constructor <;> linarith [hj.1, hj.2, hk'.1, hk'.2, hj2'.1, hj2'.2]
 
+/-- **`snap_scale` snaps the whole band** `||s| − 1| < tol` (`tol ≤ ½`) to exactly `±1`, sign kept — in particular
+scales *below* one, `1 − tol < |s| < 1`, which are NOT all within `tol` of 1 after inversion (`1/s` can exceed
+`1 + tol`): the test `|s| ≥ 1 − tol` must come before the `1/<int>` branch. -/
+theorem snap_scale_unit_band (s tol : Rat) (htol : tol ≤ 1 / 2) (h : rabs (rabs s - 1) < tol) :
+    snapScale s tol = if s < 0 then -1 else 1 :=
+  snapScale_unit s tol htol h
+
+/-- **Read-shrink `k`: the shift is snapped in OVERVIEW pixels.**  When pasting is reported, the offsets taken into
+the `k`-fold overview, `A.c / k` and `A.f / k`, are within `ttol` of whole numbers `kx, ky` and `maybe_int` returns
+exactly those: the planned overview transform has whole-overview-pixel offsets (a multiple of `k` source pixels),
+not merely whole source pixels.  (Snapping at native resolution with `ttol·k` instead would accept `k·kx + 1`.) -/
+theorem paste_overview_shift_snaps (A : Aff) (n stol ttol : Rat) (h : canPaste A n stol ttol = .ok true) :
+    ∃ (rs kx ky : Int), pickReadScale (min (scale2 A n).1 (scale2 A n).2) = .ok rs ∧ 1 ≤ rs ∧
+      rabs (A.c / rs - kx) < ttol ∧ maybeInt (A.c / rs) ttol = (kx : Rat) ∧
+      rabs (A.f / rs - ky) < ttol ∧ maybeInt (A.f / rs) ttol = (ky : Rat) ∧
+      (snapAffine (overviewTr A rs) ttol stol).c = (kx : Rat) ∧ (snapAffine (overviewTr A rs) ttol stol).f = (ky : Rat) := by
+  obtain ⟨rs, hc⟩ := (canPaste_true_iff A n stol ttol).mp h
+  have ec : (overviewTr A rs).c = A.c / rs := by
+    simp only [overviewTr, Aff.scale, Aff.mul_def, Aff.mul]; ring
+  have ef : (overviewTr A rs).f = A.f / rs := by
+    simp only [overviewTr, Aff.scale, Aff.mul_def, Aff.mul]; ring
+  obtain ⟨kx, hkx, mkx⟩ := isAlmostInt_spec _ _ hc.tx
+  obtain ⟨ky, hky, mky⟩ := isAlmostInt_spec _ _ hc.ty
+  have hst := hc.st
+  simp only [isAffineST, Bool.and_eq_true, decide_eq_true_eq] at hst
+  have hrs := read_shrink_pos_int _ _ _ hc.hrs
+  have hrq : (1 : Rat) ≤ rs := by exact_mod_cast hrs
+  have htol : tol1em10 < tol1em8 := by decide +kernel
+  -- the overview transform has even smaller off-diagonal terms, so `snap_affine` takes the snapping branch
+  have eb : (overviewTr A rs).b = A.b / rs := by
+    simp only [overviewTr, Aff.scale, Aff.mul_def, Aff.mul]; ring
+  have ed : (overviewTr A rs).d = A.d / rs := by
+    simp only [overviewTr, Aff.scale, Aff.mul_def, Aff.mul]; ring
+  have small : ∀ v : Rat, rabs v < tol1em10 → ¬ rabs (v / rs) > tol1em8 := by
+    intro v hv hgt
+    have hpos : (0 : Rat) < rs := by linarith
+    have h1 := (rabs_lt_iff _ _).mp hv
+    have : rabs (v / rs) ≤ rabs v := by
+      rw [rabs_le_iff]
+      have hv0 : 0 ≤ rabs v := by unfold rabs; split_ifs <;> linarith
+      have hle : rabs v ≤ rabs v * rs := by nlinarith
+      have a1 : v ≤ rabs v := by unfold rabs; split_ifs <;> linarith
+      have a2 : -rabs v ≤ v := by unfold rabs; split_ifs <;> linarith
+      constructor
+      · rw [le_div_iff₀ hpos]; nlinarith
+      · rw [div_le_iff₀ hpos]; nlinarith
+    linarith
+  have hsnap : ¬ (rabs (overviewTr A rs).b > tol1em8 ∨ rabs (overviewTr A rs).d > tol1em8) := by
+    rw [eb, ed]
+    rintro (hh | hh)
+    · exact small _ hst.1 hh
+    · exact small _ hst.2 hh
+  refine ⟨rs, kx, ky, hc.hrs, hrs, by rw [← ec]; exact hkx, by rw [← ec]; exact mkx,
+    by rw [← ef]; exact hky, by rw [← ef]; exact mky, ?_, ?_⟩
+  · unfold snapAffine; rw [if_neg hsnap]; exact mkx
+  · unfold snapAffine; rw [if_neg hsnap]; exact mky
+
 /-! ## paste eligibility: `_can_paste` -/
 
 /-- **Soundness of `paste_ok`.**  Pasting is reported only for transforms without rotation/shear
